@@ -32,6 +32,7 @@ func c05Gen(c *core.Ctx) func(yield func(c05Case) bool) {
 		ok := true
 		quickLazy := false // quick tier: deviations only with at most one lazy node
 		procNode := false
+		bystander := 0
 		fam := func(n int, alphabet []int, orders [][]int, name string, bound int, obsList []int) {
 			allGraphs(n, alphabet, false, func(e [][]int) bool {
 				for lz := 0; lz < 1<<n; lz++ {
@@ -44,7 +45,7 @@ func c05Gen(c *core.Ctx) func(yield func(c05Case) bool) {
 					}
 					for _, obs := range obsList {
 						for _, base := range orders {
-							p := scen.GraphProg{N: n, Edges: e, Lazy: lazy, Obs: obs, Base: base, Config: true, Family: name, ProcNode: procNode}
+							p := scen.GraphProg{N: n, Edges: e, Lazy: lazy, Obs: obs, Base: base, Config: true, Family: name, ProcNode: procNode, Bystander: bystander}
 							if bound > 0 {
 								p.Kinds = "P"
 							}
@@ -70,6 +71,13 @@ func c05Gen(c *core.Ctx) func(yield func(c05Case) bool) {
 		if !ok {
 			return
 		}
+		for bystander = 1; bystander <= 2; bystander++ { // default-embedding processors ordered first
+			fam(3, three, [][]int{{0, 1, 2}}, "n3-bystander", 0, []int{1})
+			if !ok {
+				return
+			}
+		}
+		bystander = 0
 		procNode = true // a post-processor that is itself a component with injection points
 		fam(3, three, [][]int{{0, 1, 2}, {2, 1, 0}}, "n3-procnode", 0, []int{0, 1})
 		procNode = false
@@ -200,7 +208,7 @@ func c05Run(c *core.Ctx) {
 			cc := cs
 			cc.Choices = ch.Choices()
 			key := func(kind string) string {
-				return "C05/" + kind + "/" + core.Hash(p.N, p.Edges, p.Base, p.Lazy, p.Obs, cc.Choices)
+				return "C05/" + kind + "/" + core.Hash(p.N, p.Edges, p.Base, p.Lazy, p.Obs, p.ProcNode, p.Bystander, cc.Choices)
 			}
 			if !o.OK() {
 				return
